@@ -91,11 +91,13 @@ type verifC26Op struct {
 }
 
 // verifC26Chaos records every call that reaches it and answers every Lstat
-// nondeterministically: does not exist / is a symlink / is a directory.
-// Answers are independent per call (a superset of the consistent worlds).
+// nondeterministically: does not exist / is a symlink / is a directory; the
+// same path string gets the same answer for the whole call (different
+// spellings of one directory are still answered independently).
 type verifC26Chaos struct {
 	billy.Filesystem // nil: any method not overridden below panics
 	ops              []verifC26Op
+	answers          map[string]int
 }
 
 func (c *verifC26Chaos) rec(name, p, arg string) {
@@ -113,7 +115,15 @@ func (c *verifC26Chaos) Stat(p string) (os.FileInfo, error) {
 	return verifC26Info{name: p}, nil
 }
 func (c *verifC26Chaos) Lstat(p string) (os.FileInfo, error) {
-	switch verifrt.Range(0, 2) {
+	k, ok := c.answers[p]
+	if !ok {
+		k = verifrt.Range(0, 2)
+		if c.answers == nil {
+			c.answers = map[string]int{}
+		}
+		c.answers[p] = k
+	}
+	switch k {
 	case 0:
 		c.ops = append(c.ops, verifC26Op{name: "lstat", path: p})
 		return nil, os.ErrNotExist
